@@ -1,14 +1,21 @@
 """C20 - generated HTML documentation is well-formed, escaped and internally linked.
 
-Model:   specs/HtmlDoc.tla (P-layer: push-down acceptor `Step` over token events of a strict HTML tokenizer, URL resolution
-         `Resolve`, link clause at end of run; bounded sanity model: the acceptor accepts exactly the balanced token strings),
-         specs/HtmlDocGen.tla (I-layer: template literal + optional escaping + character-level HTML lexer for every payload of
-         <= 3 special tokens, namespace/type-graph shapes with the generator's link style; TLC checks I => P for the escaping /
-         depth-aware variant and refutes the variant the unchanged tree implements).
-spec->code: every payload sequence and every type-graph shape TLC enumerates becomes a DSDL namespace set, is generated with the real
-         html target into one output directory and judged; the I-layer's predicted pages / link targets are compared (drift only).
-code->spec: each produced page is tokenised with html.parser in a strict bookkeeping subclass; the event stream of all pages of a run
-         is one trace for specs/HtmlDocTrace.tla (one TLC state per token event).
+Model:   specs/HtmlDoc.tla  P-layer: push-down acceptor `Step(state, event)` over the token events of a strict HTML tokenizer (balance /
+         nesting with void, raw-text and foreign elements; sentinel clause: text planted in DSDL comments between two marks must arrive
+         as character data or inside ONE attribute value with nothing but character data between the marks; URL resolution `Resolve` and
+         the link clause at the end of a run).  Bounded sanity model: over all token strings <= 5 (thorough 6) of 14 tokens the acceptor
+         accepts exactly those an independent definition (Dyck word by pair deletion, span regular expression) calls well-formed.
+         specs/HtmlDocGen.tla  I-layer: template literal + finalizer (escaping or not) + a character-level HTML lexer for every payload of
+         <= 3 of the 9 special tokens, and build_namespace_tree / url_from_type for every type-graph shape; TLC checks I => P for the
+         escaping / depth-aware variant and refutes the variants the unchanged tree implements (negative controls).
+spec->code: every payload and every shape TLC enumerates becomes a set of DSDL root namespaces, is generated with the real html target into
+         ONE output directory and judged; the I-layer's predictions (verdict per payload, pages, hyperlinks, broken hyperlinks) are compared
+         per run - differences are model drift, never verdicts.
+code->spec: every produced page is tokenised with html.parser in a bookkeeping subclass; the events of all pages of a run form one trace
+         for specs/HtmlDocTrace.tla (one TLC state per token event, link clause at `endrun` over the pages/ids/links of the run); plus seeded
+         random universes that are larger than anything TLC enumerates.
+Only the T-layer's REJECT records become violations.  Python only attributes a rejection to a signature (structural class) and folds the
+rejections that FOLLOW the first sentinel rejection of a page (the page is read differently from the injected markup on).
 """
 import concurrent.futures
 import html.parser
@@ -500,26 +507,23 @@ def load_events(res, pg):
 
 
 def sentinel_class(res, rec, cache):
-    """structural class of a sentinel rejection: where did the span that failed OPEN (that is where the unescaped text was put)"""
-    d = rec["detail"]
-    evs = cache.setdefault(rec["pg"], load_events(res, rec["pg"]))
-    e = evs.get(rec["n"], {})
-    if d == "sentinel-in-raw-text-element" and any(p["m"] == 1 for p in e.get("p", [])):
-        return "doc-comment-in-raw-text-element"
-    if d == "sentinel-in-comment-or-declaration" and e.get("tmo"):
-        return "doc-comment-in-comment"
-    if d == "attribute-breakout" and any(p["m"] == 1 for a in e.get("a", []) for p in a["v"]):
+    """structural class of a sentinel rejection: in what kind of position does the token at which the acceptor rejected carry the OPENING
+    mark of a span (that is where the template put the DSDL text); if it carries none, the span opened in character data earlier"""
+    if rec["pg"] not in cache:
+        cache[rec["pg"]] = load_events(res, rec["pg"])
+    e = cache[rec["pg"]].get(rec["n"], {}) if rec["k"] != "enddoc" else {}
+    k = e.get("k")
+    if k == "open" and any(p["m"] == 1 for a in e["a"] for p in a["v"]):
         return "doc-comment-attribute-breakout"
-    if d == "sentinel-in-tag-or-attribute-name" and e.get("taint") and not nmarks_event(e):
-        return "dsdl-name-in-tag-or-attribute-name"
-    if d == "sentinel-in-tag-or-attribute-name" and e.get("tainto"):
+    if k in ("open", "close") and e.get("tainto"):
         return "doc-comment-in-tag-or-attribute-name"
+    if k in ("open", "close") and e.get("taint") and not sum(nmarks(n) for n in [to_s(e["t"])] + [to_s(a["n"]) for a in e.get("a", [])]):
+        return "dsdl-name-in-tag-or-attribute-name"
+    if k == "comment" and e.get("tmo"):
+        return "doc-comment-in-comment"
+    if k == "text" and e["raw"] and any(p["m"] == 1 for p in e["p"]):
+        return "doc-comment-in-raw-text-element"
     return "doc-comment-markup-injection"
-
-
-def nmarks_event(e):
-    names = [to_s(e.get("t", []))] + [to_s(a["n"]) for a in e.get("a", [])]
-    return sum(nmarks(n) for n in names)
 
 
 def verdicts(ctx, results, cases, origin):
